@@ -5,7 +5,51 @@ From Coq Require Import List ZArith Bool Arith.
 From Coercion.Base Require Import Plan.
 From Coercion.Limiter Require ContChan ContChanProofs.
 From Coercion.Limiter Require Mechanisms.
+From Coercion.Engine Require Import Shape Event ChecksRun Block PlanSM Auto Accept.
+From Coercion.C07 Require Import MonC07 Inv C07Proofs.
 Import ListNotations.
+
+(* ---- the observable engine automaton (coq/engine) against the monitor ---- *)
+
+(* every trace the automaton accepts from its initial state satisfies mon_cont_deferred (clauses 1-15 of MonC07.v:
+   a failed continuous run ends the group's runs and fails its scope - plan reason ContCheck unless the pre-checks
+   failed -, the deferred group runs at most once, only in an entered scope, after everything else of the scope, exactly
+   once by the time Wait returns, and its failure fails the scope): for every shape, every trace, every interleaving *)
+Theorem c07_cont_deferred : forall (sh : shape) (tr : list event) (s : st),
+  shape_wf sh = true -> run sh init tr = Some s -> mon_cont_deferred (sh, tr) = true.
+Proof. exact c07_cont_deferred_l. Qed.
+Print Assumptions c07_cont_deferred.
+
+(* the "exactly once" half spelled out at traces that end with the return of Wait: for every scope of the plan the
+   monitor's fold reaches the release with no run of the bypass / continuous / deferred group in progress, the deferred
+   group (if the scope has one) has begun exactly one run if the scope was entered and none otherwise, and a failed
+   continuous or deferred run means that the released plan shows the scope Failed *)
+Theorem c07_deferred_exactly_once : forall (sh : shape) (tr : list event) (fin : image) (s : st) (sc : scope),
+  shape_wf sh = true -> run sh init (tr ++ [EvRelease fin]) = Some s -> In sc (scopes sh) ->
+  exists m, mfold sh sc (m_init sh sc) tr = Some m
+            /\ k_open (m_byp m) = false /\ k_open (m_cont m) = false /\ k_open (m_def m) = false
+            /\ (has sh sc GDeferred = true -> k_runs (m_def m) = if entered sh sc m then 1 else 0)
+            /\ (k_failed (m_cont m) = true -> fin_st fin (scope_obj sc) = Failed)
+            /\ (k_failed (m_def m) = true -> fin_st fin (scope_obj sc) = Failed).
+Proof. exact c07_deferred_exactly_once_l. Qed.
+Print Assumptions c07_deferred_exactly_once.
+
+(* "keeps being re-run", safety half: while the plan executes its blocks the continuous thread is live, and unless a
+   run failed the automaton lets the continuous group begin a new run at any moment (how often the implementation does
+   is measured by the driver, not proved) *)
+Theorem c07_thread_alive_plan : forall (sh : shape) (tr : list event) (s : st),
+  run sh init tr = Some s -> s_ph s = PBlocks -> ppres sh GCont = true ->
+  s_thr s = TLive /\ (g_dead (t_cont (s_g s)) = false -> p_may_start s GCont = true).
+Proof. exact c07_thread_alive_plan_l. Qed.
+Print Assumptions c07_thread_alive_plan.
+
+(* ... and the same for the current block while it executes its sequences *)
+Theorem c07_thread_alive_block : forall (sh : shape) (tr : list event) (s : st) (bs : bshape),
+  run sh init tr = Some s -> s_ph s = PBlocks -> block_of sh (s_cb s) = Some bs -> b_ph (s_b s) = BSeqs ->
+  bpres bs GCont = true ->
+  b_thr (s_b s) = TLive /\ (g_dead (t_cont (b_g (s_b s))) = false -> b_may_start (s_b s) GCont = true).
+Proof. exact c07_thread_alive_block_l. Qed.
+Print Assumptions c07_thread_alive_block.
 
 (* ---- the mechanism: the result channel between runContChecks and the state machine (coq/limiter/ContChan.v:
    capacity 1, one send per run, close on exit, non-blocking polls, cancel-then-drain) ---- *)
